@@ -570,7 +570,10 @@ func (e *Engine) NewTx(ctx context.Context, opts *TxOptions) (*SQLTx, error) {
 	// mutate the schema (write transactions are never cached).
 	if opts.ReadOnly {
 		e.catalogMu.Lock()
-		if e.cachedCatalog == nil {
+		// a DDL transaction may have committed (and invalidated the cache) while
+		// this catalog was being loaded from an older snapshot: it must not be
+		// published then, or every later transaction would see the stale schema
+		if e.cachedCatalog == nil && e.cachedCatalogVersion.Load() == openVersion {
 			e.cachedCatalog = catalog
 		}
 		e.catalogMu.Unlock()
